@@ -1,5 +1,6 @@
 import QF.Props.C06FApplyGen
 import QF.Props.C03SortGlueGen
+import QF.Props.C06GlueLink
 import QF.Props.C10Sticky
 /-!
 # C06 end to end — `Apply`, `FilteredApply`, `WithRowNums` as regenerated = the spec on the logical frame
@@ -26,8 +27,12 @@ spec is the stored columns read through the index (`viewFr X.index X.cols`).
     gen_rownums_semantics with `PhysOK`.
 * `gen_apply_glue` — `apply1` / `apply2` regenerated statement by statement (C03SortGlueGen.gen_apply12_semantics) for every
     meaning of the callees: which column receives `Apply1` / `Apply2`, the index argument, the destination of `setColumn`.
-    NOT composed: `helperX` (C06FApplyGen) reads these two functions by hand (`findX cols src` … `placeX cols dst`); the
-    glue theorem is stated over its own frame type with the callees as parameters and is cited here, not instantiated.
+* `gen_apply_step_glue` (C06GlueLink.helperX_eq_genApply12) — COMPOSED: the helper calls `apply1` / `apply2` inside `applyX`
+    (`helperFr` → `helperX`, which reads `findX cols src` … `placeX cols dst` by hand) ARE the regenerated glue: on a frame
+    without error, whenever the helper call has a meaning, `genApply1` / `genApply2` of today's qframe.go — run with the
+    callees `C06GlueLink.prims` (today's `Column.Apply1` / `Apply2` loop terms, the built-in table, `setX`) — return the very
+    frame `helperFr` returns (columns, receiver's index, error flag). So `gen_apply_end_to_end` rests on regenerated terms
+    at every level: loop + dispatch (`Gen.applyAst`), the frame methods (`Gen.sortGlue…`), the column loops (`Gen.apply?Ast`).
 
 Scope (as in C06FApplyGen): instructions of the catalogue `GoInstr`, minus a Go `string` function value WITHOUT a source
 column (`InScope`); `fillAll := true` in `gen_fapply_end_to_end` is the recorded open finding KF-C06-fapply-fill.
@@ -225,11 +230,39 @@ theorem gen_rownums_end_to_end (R : Reps) (up : UpperOracle) (X : PFr) (name : B
       (X.err = false → Y.index = X.index ∧ resFr X.index Y = rowNumsS (logical X) name) :=
   gen_rownums_semantics R up X name hX.cols hX.inRange hX.nodup
 
-/-- the glue `apply1` / `apply2` of today's source, for every meaning of the callees (cited, see the header) -/
+/-- the glue `apply1` / `apply2` of today's source, for every meaning of the callees -/
 theorem gen_apply_glue {φ : Type} (P : SG.APrims φ) (F : GG.Frame) (fn : φ) (dst src1 src2 : Bytes) :
     C03SortGlueGen.genApply1 P F fn dst src1 = some (C03SortGlueGen.specApply1 P F fn dst src1) ∧
     C03SortGlueGen.genApply2 P F fn dst src1 src2 = some (C03SortGlueGen.specApply2 P F fn dst src1 src2) :=
   C03SortGlueGen.gen_apply12_semantics P F fn dst src1 src2
+
+/-- a physical frame value as a frame of the glue -/
+def glueFr (X : PFr) : GG.Frame := { cols := X.cols.map C06GlueLink.toL, index := X.index, err := X.err }
+
+/-- **the helper calls of `Apply` are the regenerated `apply1` / `apply2`** (the instantiation of `gen_apply_glue`): a step of
+`applyX` — instruction `g`, dispatched by today's `Apply` to helper `k ∈ {1, 2}` with the argument fields `args` — on a frame
+`X` without error that has a meaning `Y` (`helperFr … = some Y`): the regenerated frame method, given the destination and
+source names the dispatch passes, the function value of the instruction and the callees `C06GlueLink.prims`, returns `Y`
+(as a frame of the glue: same columns, the receiver's index, same error flag). -/
+theorem gen_apply_step_glue (R : Reps) (up : UpperOracle) (X : PFr) (hX : X.err = false) (g : XInstr) (k : Nat)
+    (args : List IField) (hk : k = 1 ∨ k = 2) (Y : PFr) (h : helperFr R up k args g X = some Y) :
+    (if k = 1 then
+       C03SortGlueGen.genApply1 (C06GlueLink.prims R up) (glueFr X) (g.fn, g.s0)
+         (((args[1]?).map g.field).getD []) (((args[2]?).map g.field).getD [])
+     else
+       C03SortGlueGen.genApply2 (C06GlueLink.prims R up) (glueFr X) (g.fn, g.s0)
+         (((args[1]?).map g.field).getD []) (((args[2]?).map g.field).getD []) (((args[3]?).map g.field).getD [])) =
+      some (glueFr Y) ∧ Y.index = X.index := by
+  unfold helperFr at h
+  rw [hX] at h
+  simp only [Bool.false_eq_true, if_false, Option.map_eq_some_iff] at h
+  obtain ⟨r, hr, hY⟩ := h
+  have hg : glueFr X = C06GlueLink.frameOf X.cols X.index := by simp [glueFr, C06GlueLink.frameOf, hX]
+  have hres : glueFr Y = C06GlueLink.frameRes X.cols X.index r ∧ Y.index = X.index := by
+    subst hY
+    cases r <;> simp [glueFr, C06GlueLink.frameRes, hX]
+  rw [hg, hres.1]
+  exact ⟨C06GlueLink.helperFr_glue R up X hX _ _ _ g.fn g.s0 k hk r hr, hres.2⟩
 
 /-! ## Example: a derived frame and a list with a replaced, an appended and a failing destination -/
 
@@ -278,5 +311,6 @@ example (R : Reps) (hR : R.OK) :=
 #print axioms gen_rownums_end_to_end
 #print axioms applyInstr_shape
 #print axioms gen_apply_glue
+#print axioms gen_apply_step_glue
 
 end QF.Props.C06EndToEnd
